@@ -397,6 +397,34 @@ func runC14(r *rt.Runner) {
 			r.Note(fmt.Sprintf("xproc:c14-bundle-%02d", i), strings.Join(parts, " "))
 		}
 	})
+	// --- one short name declared twice in a package, at top level in one file and nested in another, referenced from a
+	// third: what the reference resolves to must not depend on the order the files are listed in
+	for _, variant := range []string{"top-first", "nested-first", "ref-first"} {
+		variant := variant
+		r.Do("same-name/nested-and-top-level/"+variant, func(c *rt.C) {
+			top := &jFile{Path: "dup/v1/a_status.j5s", Pkg: "dup.v1", Elems: []*jElem{
+				objDecl("Status", fld("code", tScalar(kString))),
+				enumDecl("Level", "LOW", "HIGH")}}
+			nested := &jFile{Path: "dup/v1/m_order.j5s", Pkg: "dup.v1", Elems: []*jElem{
+				objDecl("Order",
+					fld("orderId", tScalar(kString)),
+					fld("status", &jT{Kind: kObject, InlineName: "Status", Inline: &jDecl{Kind: kObject, Fields: []*jF{fld("open", tScalar(kBool))}}}),
+					fld("level", &jT{Kind: kEnum, InlineName: "Level", Inline: &jDecl{Kind: kEnum, Options: []string{"UP", "DOWN"}}}))}}
+			user := &jFile{Path: "dup/v1/z_user.j5s", Pkg: "dup.v1", Elems: []*jElem{
+				objDecl("User",
+					fld("status", tRef(kObject, "Status", "dup.v1.Status")),
+					fld("statuses", tArr(tRef(kObject, "Status", "dup.v1.Status"))),
+					fld("level", tRef(kEnum, "Level", "dup.v1.Level")))}}
+			switch variant {
+			case "nested-first":
+				top.Path, nested.Path = "dup/v1/m_status.j5s", "dup/v1/a_order.j5s"
+			case "ref-first":
+				user.Path = "dup/v1/0_user.j5s"
+			}
+			c14Check(c, &jBundle{Files: []*jFile{top, nested, user}}, "same-name:"+variant)
+			c.Feature("c14:same-name-nested-and-top-level")
+		})
+	}
 	for _, cell := range isolationMatrix() {
 		cell := cell
 		if cell.TotalityOnly {
